@@ -17,6 +17,8 @@ C13.h lock order (rules/lockorder.py): the wait-for graph over lock classes - an
   acyclic. A cycle (the indexer read guard kept across the raw packer's write lock and the blocking hand-over to the file
   writer, which needs the indexer's write lock) deadlocks for some schedule.
 C13.i chunk boundaries do not depend on read fragmentation: end of input is never inferred from a short single read().
+C13.j typed blob identity in the indexer shared by the data and tree packers (R-TYPEDID): which of two equal-bytes blobs of
+  different type arrives first depends on scheduling; with an untyped filter the second is dropped and stays unreferenced.
 C13.g no process-wide once-cell (static OnceLock/OnceCell) is initialised from function arguments.
 C13.d blob ids do not depend on pack boundaries: ids are computed from plaintext before packing (C07.c), and the
   in-packer duplicate filters only skip blobs (never reorder tree serialisation).
@@ -109,6 +111,11 @@ def run(ctx, rep):
     from rules import C06
     C06.fragmentation_rule(ctx, rep, "C13.i")
     global_state_rule(ctx, rep)
+    # no blob left unreferenced: the "already written in this run" filter shared by the data and the tree packer distinguishes
+    # blob types (a tree and a file chunk with equal bytes have the same id; whichever arrives second must still be stored)
+    rep.rule("C13.j", "blob identity is typed in the indexer shared by the concurrent packers (R-TYPEDID)")
+    from rules import typedid
+    typedid.run(ctx, rep, "C13.j", owners=["index::indexer::Indexer.indexed"])
     from rules import C08
     C08.index_entry_rule(ctx, rep, "C13.c")
     # ---- C13.b -------------------------------------------------------------------------------------
